@@ -39,6 +39,12 @@ type Reply struct {
 	// UnknownLen: the upstream leaves ContentLength at -1 although the status has no body (what net/http's
 	// HTTP/2 client does for a 204 written with Flush, and what any other RoundTripper may do)
 	UnknownLen bool `json:"unknown_len,omitempty"`
+	// ZeroLen / TEIdentity (with NoCL and a body): the upstream hands over a response whose ContentLength was left
+	// at its zero value although the Body holds bytes (&http.Response{StatusCode: 200, Body: …}, as hand-written
+	// RoundTrippers and mocks do), or one with TransferEncoding ["identity"]. Both are written by Response.Write
+	// as a close-delimited message: stored, their end is marked by nothing but the end of the entry.
+	ZeroLen    bool `json:"zero_len,omitempty"`
+	TEIdentity bool `json:"te_identity,omitempty"`
 }
 
 type Fault struct {
